@@ -211,6 +211,9 @@ class TypeNode:
 
 
 def _level(t: typing.Any) -> typing.Iterable[tuple[str | None, type]]:
+    # A pass-through type (e.g. `Callable[[int], str]`) has no members we could convert.
+    if inspection.isunresolvable(t):
+        return
     args = inspection.args(t)
     # Only pull annotations from the signature if this is a user-defined type.
     is_structured = inspection.isstructuredtype(t)
